@@ -79,6 +79,14 @@ func (m *mixedSpace) Ops(w *World) []Op {
 					ops = append(ops, Op{K: "mremove", C: c.Serial, Key: k})
 				}
 			}
+			// fields of composite (compact-encoded) children: string keys f0, f1, …
+			for _, mk := range c.Keys {
+				if sk, ok := mk.(Str); ok && len(sk.S) >= 2 && sk.S[0] == 'f' {
+					var fn int
+					fmt.Sscanf(sk.S, "f%d", &fn)
+					ops = append(ops, Op{K: "mremove", C: c.Serial, Key: 200 + fn}, Op{K: "mset", C: c.Serial, Key: 200 + fn, V: "t"}, Op{K: "mget", C: c.Serial, Key: 200 + fn})
+				}
+			}
 		} else {
 			if n < limit {
 				for _, cl := range classes {
@@ -280,9 +288,11 @@ func init() {
 				{Name: "cache-split-T256", Kind: "mixed", T: 256, L: 5, Keys: 4, Classes: []string{"limM"}, Oracles: or, Depth: 6},
 				{Name: "cache-compact-T256", Kind: "mixed", T: 256, L: 2, Keys: 2, Classes: []string{"Mc:t", "Mc:t,t"}, Oracles: or, Depth: 5},
 			}
-			specs = append(specs, TrajSpecs(r.ID, "arr-mixed", 60, 10, 61, 10, 2, 256, []string{"t", "limA"}, or)...)
-			specs = append(specs, TrajSpecs(r.ID, "map-grow-lim", 90, 31, 92, 20, 2, 256, []string{"t", "limM"}, or)...)
-			specs = append(specs, TrajSpecs(r.ID, "map-grow-desc", 90, 11, 92, 20, 2, 256, []string{"t", "limM"}, or)...)
+			specs = append(specs, TrajSpecs(r.ID, "arr-mixed", 60, 20, 61, 20, 1, 256, []string{"t", "limA"}, or)...)
+			specs = append(specs, TrajSpecs(r.ID, "arr-mixed", 60, 10, 11, 10, 2, 256, []string{"t", "limA"}, or)...)
+			specs = append(specs, TrajSpecs(r.ID, "map-grow-lim", 90, 51, 92, 40, 1, 256, []string{"t", "limM"}, or)...)
+			specs = append(specs, TrajSpecs(r.ID, "map-grow-desc", 90, 11, 92, 40, 1, 256, []string{"t", "limM"}, or)...)
+			specs = append(specs, TrajSpecs(r.ID, "map-grow-desc", 90, 11, 12, 20, 2, 256, []string{"t", "limM"}, or)...)
 		} else {
 			specs = []Spec{
 				{Name: "cache-mixed-T256", Kind: "mixed", T: 256, L: 3, Keys: 2, Classes: []string{"t", "limA+", "A", "s:M:t"}, Oracles: or, Depth: 7},
